@@ -31,7 +31,7 @@ func init() {
 			"a sysex exceeds the buffer when its total length including F0 and F7 is larger than SysExBufferSize",
 			"at the drivers.Reader level the callback contract pads 0/1-data messages with zeros to 3 bytes and reports a stray F7 as [F7 00 00] (internal contract with midi.ListenTo); at the midi.ListenTo level nothing may be delivered for a stray F7",
 		},
-		Require:         []string{"streams_exhaustive", "streams_random", "deliveries_l1", "deliveries_l2", "sysex_overflows", "stray_f7", "suffix_checks", "abandoned_messages", "large_buffer_sysex_streams", "concurrent_reader_streams", "streams_with_clock_wrap", "stall_pauses_over_2s"},
+		Require:         []string{"streams_exhaustive", "streams_random", "deliveries_l1", "deliveries_l2", "sysex_overflows", "stray_f7", "suffix_checks", "abandoned_messages", "large_buffer_sysex_streams", "concurrent_reader_streams", "streams_with_clock_wrap", "stall_pauses_over_2s", "giant_buffer_sysex_streams"},
 		FakeTimeWorkers: 2,
 		Run:             runC06,
 		Post: func(m *mon.Merged) {
@@ -344,9 +344,19 @@ func runC06(c *mon.Ctx) {
 	// delivered iff the total length does not exceed the configured buffer
 	bigBufs := []uint32{1025, 1500, 2048, 4096, 5000, 8192}
 	bigLens := []int{1023, 1024, 1025, 1026, 2047, 2048, 2049, 2050, 4095, 4096, 4097, 4098, 5000, 5001, 8192, 8193}
-	c.Each("large-buffer-sysex", int64(len(bigBufs)*len(bigLens)), func(i int64, r *mon.Rand) {
-		cfg := liveCfg{sysex: true, clock: true, sense: true, buf: bigBufs[int(i)/len(bigLens)]}
-		n := bigLens[int(i)%len(bigLens)]
+	// plus buffers and messages beyond 2^24 bytes (a few cases: each costs tens of MiB)
+	giant := [][2]int{{20 << 20, 16 << 20}, {20 << 20, 16<<20 + 1}, {32 << 20, 20 << 20}, {16<<20 + 2, 16<<20 + 3}, {1 << 20, 1<<20 + 1}, {3 << 20, 3 << 20}}
+	c.Each("large-buffer-sysex", int64(len(bigBufs)*len(bigLens)+len(giant)), func(i int64, r *mon.Rand) {
+		var cfg liveCfg
+		var n int
+		if g := int(i) - len(bigBufs)*len(bigLens); g >= 0 {
+			cfg = liveCfg{sysex: true, clock: true, sense: true, buf: uint32(giant[g][0])}
+			n = giant[g][1]
+			c.Count("giant_buffer_sysex_streams", 1)
+		} else {
+			cfg = liveCfg{sysex: true, clock: true, sense: true, buf: bigBufs[int(i)/len(bigLens)]}
+			n = bigLens[int(i)%len(bigLens)]
+		}
 		sx := make([]byte, n)
 		sx[0] = 0xF0
 		for j := 1; j < n-1; j++ {
